@@ -37,10 +37,17 @@ func ParseYamlInDir(path string, namespaceName string) (*Namespace, error) {
 	var paths []string
 
 	if fileInfo.IsDir() {
+		root := path
 		err := filepath.Walk(path,
 			func(path string, info os.FileInfo, err error) error {
 				if err != nil {
 					return err
+				}
+				if info.IsDir() && path != root {
+					// a sub-directory with a package file of its own is another package, not part of this one
+					if _, err := os.Stat(filepath.Join(path, packaging.PackageFileName)); err == nil {
+						return filepath.SkipDir
+					}
 				}
 				if !info.IsDir() &&
 					(strings.HasSuffix(info.Name(), ".yml") || strings.HasSuffix(info.Name(), ".yaml")) &&
